@@ -99,6 +99,8 @@ def _split_liveness(u, recurrence, persistence):
     """Collect one generalized Streett pair."""
     assert not persistence  # GR(1), not GR(k)
     flat_disj = flatten_op(u, r'\/')
+    n_other = len(recurrence)  # from other conjuncts
+    n_conj = 0  # disjuncts that are conjunctions of `[]<>`
     for v in flat_disj.operands:
         op = v.operator
         if op == '<>':
@@ -108,9 +110,15 @@ def _split_liveness(u, recurrence, persistence):
             assert not _has_operator(state, ['[]', '<>', 'X'])
             persistence.append(state)
         elif op in ('/\\', '[]'):
+            n_conj += 1
             _split_recurrence(v, recurrence)
         else:
             raise ValueError(op)
+    # one Streett pair:
+    # `<>[] p1 \/ ... \/ ([]<> q1 /\ ... /\ []<> qn)`
+    assert n_conj <= 1, n_conj
+    assert not (persistence and n_other), (
+        persistence, recurrence)
 
 
 def _split_recurrence(u, recurrence):
